@@ -239,3 +239,81 @@ _add(
          "identically to - a freshly built copy.",
     technique="runtime monitoring: relational monitor, layer vs hand-composed twins and cleared layer vs fresh copy at every clear position",
 )
+
+_add(
+    "C08",
+    rule="(a) exhaustive: all 4^T joint pre/post spike histories of a single synapse (T=4 quick, T=5 thorough; every "
+         "synapse of a 3->2 dense cell shares the history) x 4 sign modes x {cumulative, nearest}, STDP and triplet STDP; "
+         "(b) random populations for dense / direct / lateral / conv cells, dt {1,0.5}, batch 1-3, 6-12 steps, with and "
+         "without connection delays in both the 'delayed' and delay-frozen trainer modes (delays re-assigned mid-run), "
+         "reductions {sum, mean, amax}, scalar rewards of both signs and per-sample reward tensors, for STDP, triplet "
+         "STDP, MSTDP and MSTDPET. One evaluation = one layer step + trainer call + update judged (parts, net change, "
+         "applied change) against sums over recorded spike times; non-trivial when at least one spike pair contributes; "
+         "distinct = (trainer, cell type, delay mode, sign mode, trace mode, reduction, batch, reward kind, pairs/no pairs).",
+    required=["trainer_steps_checked", "steps_with_pairs", "exhaustive_histories"],
+    floor={"quick": 60, "thorough": 150},
+    exhaustive={"quick": ["all 4^4 joint pre/post histories of one synapse x 4 sign modes x 2 trace modes"],
+                "thorough": ["all 4^5 joint pre/post histories of one synapse x 4 sign modes x 2 trace modes"]},
+    text="Held on every spike history explored: real trainers registered on a real Serial layer (float64) are driven with "
+         "imposed pre and post spikes; after every step the accumulated potentiating / depressing parts and the applied "
+         "weight change are compared with an oracle that only knows the spike times (explicit pair / triplet sums, "
+         "eligibility filter, reward scaling, batch reduction, F.unfold geometry for conv).",
+    technique="runtime monitoring: spike-time reference model (pair/triplet sums) against real trainers on real layers; exhaustive short histories + random populations",
+    assumptions=["pre spikes are the layer input and post spikes are imposed through inferno.extra.ExactNeuron(override=...)"],
+)
+
+_add(
+    "C18",
+    rule="(a) formula: KernelSTDP (exponential kernels, with/without delays in both trainer modes) and the six "
+         "delay-adjusted trainers on dense / direct / lateral / conv cells, dt {1,0.5}, batch 1-3, 6-14 steps of random "
+         "pre / imposed post spikes, per-synapse delays {all zero, on-grid, off-grid real values} re-assigned mid-run "
+         "(weight variants) or changed by learning every step (delay variants; the oracle re-reads d each step), 4 sign "
+         "combinations, reductions, scalar and per-sample rewards; (b) cross: kernel rule with the shipped exponential "
+         "kernels vs the dedicated delay-adjusted rule on identical inputs; (c) all-zero delays vs the undelayed kernel "
+         "rule; (d) exactly constructed t_delta == 0 ties. One evaluation = one step judged; distinct = (part, trainer, "
+         "cell type, delay values, sign mode, reduction, batch, reward kind, active/silent).",
+    required=["formula_steps_checked", "steps_with_change", "steps_before_both_sides_spiked", "cross_steps_checked",
+              "zero_delay_steps_checked", "ties_checked"],
+    floor={"quick": 60, "thorough": 150},
+    text="Held on every history explored: the change applied by each real delay-adjusted / kernel trainer after every "
+         "step equals the documented function of t_delta built from the true most-recent spike times and the delay read "
+         "that step (nothing before both sides have spiked, causal branch at t_delta == 0), and the kernel and dedicated "
+         "implementations agree step by step.",
+    technique="runtime monitoring: last-spike-time reference model + cross-implementation relational monitor on real trainers",
+)
+
+_add(
+    "C09",
+    rule="every shipped trainer (STDP, triplet, MSTDP, MSTDPET, kernel, the six delay-adjusted weight / delay variants) x "
+         "all four sign combinations of its learning rates on dense / direct / lateral / conv cells with random spike "
+         "histories, reward signs (scalar and per-sample), reductions {sum, mean, amax}, with and without delays; a "
+         "class-level wrapper on the Accumulator setters checks every part handed over for element-wise non-negativity; "
+         "the applied change is compared with the signed C08 / C18 oracle; in half of the cases spy upper / lower "
+         "bounding functions check the routing; plus linear homeostasis on weight / bias / delay with plasticity of both "
+         "signs and observed rates above and below target (direction of the applied change). One evaluation = one "
+         "trainer step judged; distinct = (trainer, cell type, sign mode, reduction, reward kind, delay mode, ...).",
+    required=["parts_checked", "trainer_steps_checked", "routing_steps_checked", "homeostasis_steps_checked"],
+    floor={"quick": 60, "thorough": 200},
+    text="Held on every history explored (apart from the listed findings): every tensor a real trainer assigns to an "
+         "Accumulator is checked to be element-wise non-negative at the moment of assignment, potentiation minus "
+         "depression equals the rule's signed update from the spike-time oracle, spy bounding functions receive exactly "
+         "the reduced potentiating / depressing parts, and homeostatic updates are checked for direction.",
+    technique="runtime monitoring: invariant hooked at the Accumulator setters + signed-rule reference model + spy bounding functions on real trainers",
+)
+
+_add(
+    "C11",
+    rule="components built with batch size B in 2..5 next to B twins of batch size 1 with identical parameters: the 8 "
+         "neuron classes (adaptation frozen, refrac_lock on/off), 4 synapses (delays 0/2/3 steps, in-place or not, incl. "
+         "full history tensors and delayed reads), 4 connections x 4 synapses with and without delays, Serial / Biclique / "
+         "RecurrentSerial layers, and the 11 trainers with batch_reduction=sum; per-sample inputs are deliberately very "
+         "different (sample 0 silent, sample 1 saturated, the rest random); 5-25 steps each. One evaluation = one step in "
+         "which every sample of every observable is compared with its single-sample twin (or the sum of per-sample "
+         "trainer steps); distinct = (component kind, class, batch size, delay, ...).",
+    required=["steps_checked", "sample_comparisons", "trainer_steps_checked"],
+    floor={"quick": 60, "thorough": 200},
+    text="Held on every run explored: sample b of every output, state tensor and history tensor of a batched real "
+         "component equals what an identically parameterised batch-size-1 twin produces for that sample alone, at every "
+         "step; with a sum reduction the batched trainer step equals the sum of the per-sample steps.",
+    technique="runtime monitoring: relational (2-safety) monitor, batched run vs independent single-sample twins",
+)
